@@ -85,10 +85,10 @@ var c04Pool = []kval{
 	{"k_fnhc", func() interface{} { return func(h NamedHelperContext) string { return "hc" } }},     // parameter convertible to, but not assignable from, plush.HelperContext
 	{"k_fnwide", func() interface{} { return func(h WideHelperContext) string { return "wide" } }},  // an interface that plush.HelperContext does not satisfy although it embeds the helper-context methods
 	{"k_fnphc", func() interface{} { return func(h *plush.HelperContext) string { return "phc" } }}, // pointer to the helper context: implements the interface, neither assignable nor convertible
-	{"k_pit", func() interface{} { return &PanicIter{} }},                // an Iterator whose Next panics on its second call
-	{"k_stack", func() interface{} { return &IntStack{1, 2, 3, 4, 5} }}, // a pointer to a slice with methods that change its length
-	{"k_void", func() interface{} { return func(s string) {} }}, // a Go function without results
-	{"k_voider", func() interface{} { return Voider{} }},        // a value with a method without results
+	{"k_pit", func() interface{} { return &PanicIter{} }},                                           // an Iterator whose Next panics on its second call
+	{"k_stack", func() interface{} { return &IntStack{1, 2, 3, 4, 5} }},                             // a pointer to a slice with methods that change its length
+	{"k_void", func() interface{} { return func(s string) {} }},                                     // a Go function without results
+	{"k_voider", func() interface{} { return Voider{} }},                                            // a value with a method without results
 	{"k_embs", func() interface{} { return WithNilStringer{} }},                                     // String() promoted through a nil embedded pointer
 	{"k_embsi", func() interface{} { return &WithNilStringerIface{} }},                              // String() of a nil embedded interface
 	{"k_fnhc2", func() interface{} {
@@ -293,6 +293,17 @@ func c04Run(t *engine.T, shard string) {
 		// literal text ending in the first bytes of an escape or a tag
 		for _, src := range []string{"a \\<", "\\<", "a\\", "<", "a<", "\\<%", "a\\<%", "\\\\<", "\\\\<%", "<%= 1 %>\\<", "<%= 1 %>\\", "<% let a = 1 %>\\<%", "a\\<\\<", "<%", "<%=", "a<%#"} {
 			c04Case(t, "text-ending", src)
+		}
+		// bytes outside ASCII wherever a template can carry them: comment tags, line comments, string literals,
+		// text, identifier and operator positions, hash keys, partial names, data under such keys
+		for _, hb := range []string{"\x80", "é", "\xff", "世", "\xc3", "\xf0\x9f\x98\x80", "\x7f", "\x00"} {
+			for _, h := range []struct{ pre, post string }{
+				{`<%# caf`, ` %>ok`}, {`<%#`, `%>ok`}, {"<% # ", "\n %>ok"}, {`<%= "`, `" %>`}, {"<%= `", "` %>"}, {`a`, `b<%= 1 %>`}, {`<%= `, ` %>`}, {`<%= k_si`, ` %>`},
+				{`<%= 1 `, ` 2 %>`}, {`<%= {"`, `": 1} %>`}, {`<%= k_mss["`, `"] %>`}, {`<% let `, ` = 1 %>`}, {`<%= k_pst.`, ` %>`}, {`<%= uf("`, `") %>`}, {`<%= len("`, `") %>`},
+				{`<%= for (`, `) in k_si { %>x<% } %>`}, {`<%= if (`, `) { %>x<% } %>`}, {`<%= truncate("`, `", {"size": 1}) %>`}, {`<%= 1`, ` %>`}, {`<%`, `= 1 %>`}, {`<`, `%= 1 %>`}, {`<%= 1 %`, `>`},
+			} {
+				c04Case(t, "high-byte", P+h.pre+hb+h.post)
+			}
 		}
 		// a loop over a pointer to a slice whose body shortens / lengthens that slice through a method
 		for _, src := range []string{
